@@ -25,14 +25,14 @@ theorem beIdx_mid_gen (a b c : Bytes) : beIdx (a ++ (b ++ c)) a.length b.length 
     rw [beAux_eq (0 * 256 + x.toNat) xs]
     simp
 
-theorem leIdx_mid (a c : Bytes) (pos w n : Nat) (hp : pos = a.length) :
+theorem leIdx_mid12 (a c : Bytes) (pos w n : Nat) (hp : pos = a.length) :
     leIdx (a ++ (ofLE w n ++ c)) pos w = .ok (n % 256 ^ w) := by
   subst hp
   have := leIdx_mid_gen a (ofLE w n) c
   rwa [ofLE_length, le_ofLE] at this
 
-theorem leIdx_head (c : Bytes) (w n : Nat) : leIdx (ofLE w n ++ c) 0 w = .ok (n % 256 ^ w) := by
-  simpa using leIdx_mid [] c 0 w n rfl
+theorem leIdx_head12 (c : Bytes) (w n : Nat) : leIdx (ofLE w n ++ c) 0 w = .ok (n % 256 ^ w) := by
+  simpa using leIdx_mid12 [] c 0 w n rfl
 
 theorem beIdx_mid (a c : Bytes) (pos w n : Nat) (hp : pos = a.length) :
     beIdx (a ++ (ofBE w n ++ c)) pos w = .ok (n % 256 ^ w) := by
